@@ -9,10 +9,13 @@ names left in `__cache__`, the re-entrancy marks left behind and the NUMBER of h
 compared).  The independent oracle checks the property text on the real objects: order independence, defining
 relations, supplied values read back, derivable <=> readable (closure of the documented directions), failures are
 AttributeError, fast, and without an internal RecursionError (Hook.__get__ is watched while the harness runs), round trips.
+All of it also on objects that carry a SIDE quantity (a hook that is no member of a group but usually defaults to one,
+given explicitly / provided by a subclass hook / read first; see `_side_variants`).
 """
 import itertools
 import math
 import os
+import random
 import time
 
 from ..translate import gen, pyexpr
@@ -40,8 +43,10 @@ FILES = [
 
 U_HOOKS = ["length", "duration", "velocity"]
 T_HOOKS = ["target_width", "target_filling_ratio", "target_cross_section_area", "target_cross_section_filling_ratio"]
+# max_radius is no member of a group: it is the quantity that DEFAULTS to a member (nominal_radius) and may be given on its
+# own (collars); it is inside the tables so that the theorems cover rolls with and without an own max_radius
 R_HOOKS = ["nominal_radius", "nominal_diameter", "working_radius", "rotational_frequency", "surface_velocity",
-           "working_velocity"]
+           "working_velocity", "max_radius"]
 
 # model class -> (python class path below pyroll.core, hosts that carry implementations in MRO order (the names used in
 # the decorators), hooks whose implementations form the table).  MRO and order are cross-checked against the real
@@ -119,7 +124,13 @@ RULE = ("every group (unit length/duration/velocity; roll radius/diameter; rotat
         "placement in a sequence, which external quantities exist) x EVERY subset of supplied members x EVERY read order "
         "on a fresh real object, values random log-uniform positive and mutually consistent. A case = (world, subset, "
         "order, values); non-trivial = at least one member is derived (neither all supplied nor all failing); distinct by "
-        "(world, subset, order). Per case the Lean interpreter runs the same scenario (values, error kinds, cached names).")
+        "(world, subset, order). Per case the Lean interpreter runs the same scenario (values, error kinds, cached names). "
+        "Side quantities: every float valued hook of the object under test that is no member of any group (found on the "
+        "object: max_radius, min_radius, working_radius, width, exit_angle, usable_width, tip_width, height, gap, ...) is, one "
+        "at a time, (a) given explicitly with default x random factor, (b) provided by a hook function of an own subclass, "
+        "(c) read before the members - as is every other modelled hook of the class; all subsets x all orders for pairs and, in "
+        "the thorough tier, for (a); otherwise 2 (c: 1) random orders per subset. Members are re-drawn consistently with a "
+        "side value that enters their relations (working radius, exit angle, usable width).")
 ASSUMPTIONS = [
     "IEEE rounding: consistency and round trips are theorems over the reals; on floats they are checked with rtol 1e-9",
     "hook implementation bodies outside the translatable subset (length_from_roll_pass_positions, "
@@ -168,6 +179,77 @@ def _safe(f):
         return ("E", e)
 
 
+# --------------------------------------------------------------------------------------------------------------
+# side quantities: hooks of the object under test that are NOT members of a group
+# --------------------------------------------------------------------------------------------------------------
+# The defining relations of a group (property statement) mention the members and a few quantities of their own standing
+# (nominal / working radius, usable width, usable cross-section).  Every OTHER quantity of the object usually has a
+# default derived from a member (Roll.max_radius = nominal_radius, TwoRollPass.usable_width = groove.usable_width, ...), so
+# a formula that reads the wrong one is invisible on ordinary objects.  A scenario may therefore carry ONE side value
+#   vals["@aux"] = {"name": hook, "value": x, "mode": m}
+#   m = "explicit"    the quantity is given explicitly (constructor keyword / attribute assignment: `__dict__`)
+#   m = "hook"        the quantity is provided by a hook function of a subclass of the object's class (a plugin)
+#   m = "read-first"  nothing is given, but the quantity is READ (and thereby cached, or fails) before the members are
+# and the property is demanded of the members exactly as without it (the relations are evaluated with the quantities as
+# the object reports them).
+ALL_MEMBERS = {m for g in GROUPS.values() for m in g}
+_SIDE_CLASSES = {}
+_SIDE_NAMES = {}
+
+
+def _side_class(base, name):
+    """own subclass of `base` (never registered anywhere) whose hook `name` is answered by a hook function"""
+    key = (base, name)
+    if key not in _SIDE_CLASSES:
+        sub = type("Side" + base.__name__, (base,), {"__doc__": "C16 harness: a plugin class providing " + name})
+
+        def provided_by_subclass(self):
+            return self.__dict__["_c16_side_value"]
+        getattr(sub, name)(provided_by_subclass)          # registered on the subclass's own Hook object only
+        _SIDE_CLASSES[key] = sub
+    return _SIDE_CLASSES[key]
+
+
+def _apply_side(obj, aux):
+    if not aux:
+        return
+    if aux["mode"] == "explicit":
+        setattr(obj, aux["name"], aux["value"])           # Hook.__set__: obj.__dict__[name] = value
+    elif aux["mode"] == "hook":
+        obj.__dict__["_c16_side_value"] = aux["value"]
+        obj.__class__ = _side_class(type(obj), aux["name"])
+
+
+def _hook_names(obj):
+    from pyroll.core.hooks import Hook
+    out = []
+    for k in type(obj).__mro__:
+        for n, v in list(vars(k).items()):
+            if isinstance(v, Hook) and n not in out:
+                out.append(n)
+    return out
+
+
+def _side_candidates(world, vals):
+    """[(name, default)]: the float valued hooks of the object under test (all members supplied) that are neither set
+    nor a member of any group; found once per world (names), defaults re-read for the given values"""
+    ref, keep = world.build({m: vals[m] for m in world.members}, vals)
+    if world.name not in _SIDE_NAMES:
+        _SIDE_NAMES[world.name] = [n for n in _hook_names(ref) if n not in ALL_MEMBERS and not ref.has_set(n)
+                                   and _is_float(_safe(lambda: getattr(ref, n)))]
+        ref, keep = world.build({m: vals[m] for m in world.members}, vals)
+    out = []
+    for n in _SIDE_NAMES[world.name]:
+        r = _safe(lambda: getattr(ref, n))
+        if _is_float(r):
+            out.append((n, float(r[1])))
+    return out
+
+
+def _is_float(r):
+    return r[0] == "V" and isinstance(r[1], float) and math.isfinite(r[1])
+
+
 class World:
     """one class in one situation.  `build(sup)` returns (fresh object, keep-alive list); `values(rng)` a consistent
     assignment of all members (+ auxiliaries used by build); `known(twin)` the oracle's list of external facts;
@@ -176,7 +258,19 @@ class World:
     def __init__(self, name, cls, group, values, build, known, rules, relations):
         self.name, self.cls, self.group = name, cls, group
         self.members = GROUPS[group]
-        self.values, self.build, self.known, self.rules, self.relations = values, build, known, rules, relations
+        self.values, self._build, self._known, self.rules, self.relations = values, build, known, rules, relations
+
+    def build(self, sup, vals):
+        """fresh object under test (+ keep-alive list); a side value `vals["@aux"]` (see `_apply_side`) is put on it"""
+        obj, keep = self._build(sup, vals)
+        _apply_side(obj, vals.get("@aux"))
+        return obj, keep
+
+    def known(self, twin, aux=None):
+        k = set(self._known(twin))
+        if aux and aux["mode"] in ("explicit", "hook"):
+            k.add(aux["name"])                    # the side quantity has a value of its own
+        return k
 
 
 def _worlds():
@@ -185,7 +279,7 @@ def _worlds():
     W = []
 
     # ---- unit length / duration / velocity on transports -------------------------------------------------------
-    def unit_values(rng):
+    def unit_values(rng, aux=None):
         v, d = _logu(rng), _logu(rng)
         return {"velocity": v, "duration": d, "length": v * d}
 
@@ -244,7 +338,7 @@ def _worlds():
 
     # ---- unit group on roll passes ---------------------------------------------------------------------------------
     def mk_pass_unit(cls_name, with_rf):
-        def values(rng):
+        def values(rng, aux=None):
             R, rf, L = rng.uniform(0.1, 0.4), _logu(rng), rng.uniform(0.01, 0.05)
             gf = _groove(pc).groove_factor
             v = rf * (R - gf) * 2 * math.pi
@@ -259,7 +353,7 @@ def _worlds():
             roll = pc.Roll(groove=g3, nominal_radius=vals["R"], **kw)
             return pc.ThreeRollPass(roll=roll, inscribed_circle_diameter=22e-3, entry_point=-vals["length"], **sup), []
 
-        def values3(rng):
+        def values3(rng, aux=None):
             v = values(rng)
             gf = pc.RoundGroove(r1=3e-3, r2=12.5e-3, depth=5e-3, pad_angle=30).groove_factor
             v["velocity"] = v["rf"] * (v["R"] - gf) * 2 * math.pi
@@ -279,7 +373,7 @@ def _worlds():
     W += [mk_pass_unit("TwoRollPass", True), mk_pass_unit("TwoRollPass", False), mk_pass_unit("ThreeRollPass", True)]
 
     # ---- roll radius / diameter ------------------------------------------------------------------------------------
-    def rad_values(rng):
+    def rad_values(rng, aux=None):
         R = rng.uniform(0.05, 0.5)
         return {"nominal_radius": R, "nominal_diameter": 2 * R}
 
@@ -297,13 +391,16 @@ def _worlds():
     W.append(World("PassRoll/radius", "PassRoll", "radius", rad_values, mk_pass_roll, lambda o: set(), rad_rules, rad_rel))
 
     # ---- rotational frequency / surface velocity / working velocity -------------------------------------------------
-    def vel_values(rng):
+    def vel_values(rng, aux=None):
         R, rf = rng.uniform(0.05, 0.5), _logu(rng)
         gf = _groove(pc).groove_factor
         a = rng.uniform(0.02, 0.3)
-        wv = rf * (R - gf) * 2 * math.pi
+        # the working radius is a quantity of its own: nominal_radius - groove_factor unless the roll is given another one
+        wr = aux["value"] if aux and aux["mode"] in ("explicit", "hook") and aux["name"] == "working_radius" else R - gf
+        wv = rf * wr * 2 * math.pi
         return {"R": R, "rotational_frequency": rf, "surface_velocity": rf * R * 2 * math.pi, "working_velocity": wv,
-                "neutral_angle": a, "neutral_point": math.sin(a) * (R - gf), "gf": gf}
+                "neutral_angle": a, "neutral_point": math.sin(a) * wr, "gf": gf, "wr": wr,
+                "exit_point": rng.uniform(-0.3, 0.3) * wr}
 
     def vel_rel(obj, got):
         R = _safe(lambda: float(obj.nominal_radius))
@@ -329,14 +426,22 @@ def _worlds():
                      lambda o: {n for n in ("nominal_radius", "nominal_diameter") if o.has_set(n)}, vel_rules, vel_rel)
     W += [mk_roll_vel(r) for r in ("nr", "nd", "none")]
 
-    def mk_passroll_vel(pass_vel, neutral):
+    def mk_passroll_vel(pass_vel, neutral, exit_point=False):
         def build(sup, vals):
             rkw = {"nominal_radius": vals["R"]}
-            ang = 0.0                                       # exit angle: exit_point = 0
+            ang = 0.0                                       # exit angle: exit_point = 0 by default ...
+            pkw = {}
+            if exit_point:                                  # ... unless the pass is given one: asin(exit_point / working radius)
+                pkw["exit_point"] = vals["exit_point"]
+                ang = math.asin(vals["exit_point"] / vals["wr"])
+            aux = vals.get("@aux")
+            if aux and aux["name"] == "exit_angle" and aux["mode"] in ("explicit", "hook"):
+                ang = aux["value"]                          # ... or the roll is given its exit angle directly
             if neutral != "none":
                 rkw[neutral] = vals[neutral]
                 ang = vals["neutral_angle"]
-            pkw = {"velocity": vals["working_velocity"] * math.cos(ang)} if pass_vel else {}
+            if pass_vel:
+                pkw["velocity"] = vals["working_velocity"] * math.cos(ang)
             return mk_pass_roll(sup, vals, rkw, pkw)
 
         def known(o):
@@ -345,9 +450,10 @@ def _worlds():
                 k.add("roll_pass.velocity")
             return k
         rules = vel_rules + [("working_velocity", ["roll_pass.velocity", "working_radius"])]
-        return World(f"PassRoll/vel/{'pv' if pass_vel else 'nopv'}/{neutral}", "PassRoll", "rollvel", vel_values, build,
-                     known, rules, vel_rel)
+        return World(f"PassRoll/vel/{'pv' if pass_vel else 'nopv'}/{neutral}" + ("/exit_point" if exit_point else ""),
+                     "PassRoll", "rollvel", vel_values, build, known, rules, vel_rel)
     W += [mk_passroll_vel(pv, ne) for pv in (False, True) for ne in ("none", "neutral_angle", "neutral_point")]
+    W.append(mk_passroll_vel(True, "none", exit_point=True))     # a non-zero exit angle enters the pass-velocity direction
 
     # ---- neutral point / neutral angle -----------------------------------------------------------------------------------
     def neu_rel(obj, got):
@@ -364,7 +470,7 @@ def _worlds():
                        lambda o: {n for n in ("nominal_radius",) if o.has_set(n)}, neu_rules, neu_rel))
 
     # ---- cooling pipe ------------------------------------------------------------------------------------------------------
-    def pipe_values(rng):
+    def pipe_values(rng, aux=None):
         r = _logu(rng, -4, 0)
         return {"inner_radius": r, "cross_section_area": math.pi * r ** 2}
 
@@ -384,8 +490,9 @@ def _worlds():
             return pc.ThreeRollPass(roll=pc.Roll(groove=g3, nominal_radius=0.16), inscribed_circle_diameter=22e-3, **sup)
         ocs = helpers.out_cross_section if cls_name == "TwoRollPass" else helpers.out_cross_section3
 
-        def values(rng):
+        def values(rng, aux=None):
             rp = bare()
+            _apply_side(rp, aux)          # usable width / usable cross-section are read from a pass that carries the side value
             f = rng.uniform(0.6, 0.98)
             uw, ua = float(rp.usable_width), float(rp.usable_cross_section.area)
             tw = f * uw
@@ -616,12 +723,18 @@ def _read(obj, name):
         return ("E", _kind(e) + ("(RecursionError)" if rec else ""), dt, f"{type(e).__name__}: {str(e)[:120]}")
 
 
+def _pre_reads(vals):
+    aux = vals.get("@aux")
+    return [aux["name"]] if aux and aux["mode"] == "read-first" else []
+
+
 def _run_real(world, sup_names, order, vals, funcs):
+    """reads: the side quantity of a "read-first" scenario first, then the members in `order`"""
     sup = {m: vals[m] for m in sup_names}
     obj, keep = world.build(sup, vals)
     _CALLS["obj"], _CALLS["funcs"] = obj, set(funcs.values())
     reads = []
-    for m in order:
+    for m in _pre_reads(vals) + list(order):
         _CALLS["n"] = 0
         r = _read(obj, m)
         reads.append((m,) + r[:3] + (r[3] if r[3] is not None else "", _CALLS["n"]))
@@ -649,17 +762,42 @@ def _close(a, b, rtol=RTOL):
 
 
 def _case_replay(world, sup_names, order, vals):
-    return {"world": world.name, "class": CLASSES[world.cls][0], "supplied": {m: vals[m] for m in sup_names},
-            "read_order": list(order), "values": vals,
-            "how": "driver.props.c16: w = [w for w in _worlds() if w.name == world][0]; obj, keep = w.build(supplied, values); "
-                   "[getattr(obj, m) for m in read_order]"}
+    rp = {"world": world.name, "class": CLASSES[world.cls][0], "supplied": {m: vals[m] for m in sup_names},
+          "read_order": list(order), "values": vals,
+          "how": "driver.props.c16: w = [w for w in _worlds() if w.name == world][0]; obj, keep = w.build(supplied, values); "
+                 "[getattr(obj, m) for m in read_order]"}
+    aux = vals.get("@aux")
+    if aux:
+        rp["side_quantity"] = {
+            "explicit": f"{aux['name']}={aux['value']} is given explicitly on the object (obj.{aux['name']} = value)",
+            "hook": f"{aux['name']}={aux['value']} is provided by a hook function of a subclass of the object's class",
+            "read-first": f"{aux['name']} is read on the object before the members (getattr, exceptions ignored)",
+        }[aux["mode"]]
+        rp["how"] += "  -- w.build puts values['@aux'] on the object; a 'read-first' quantity is read before read_order"
+    return rp
 
 
-def _scenario(ctx, world, vals, funcs, tables, lines, pending, only=None):
-    """all subsets x all orders of one world for one assignment of values; oracle immediately, model lines queued"""
+def _side_tag(vals):
+    aux = vals.get("@aux")
+    return "" if not aux else "/side-read" if aux["mode"] == "read-first" else "/side-value"
+
+
+def _scenario(ctx, world, vals, funcs, tables, lines, pending, only=None, n_orders=None, record=None, reference=None):
+    """all subsets x all orders (`n_orders`: that many random ones per subset) of one world for one assignment of values;
+    oracle immediately, model lines queued.  `record`: {subset: {member: (kind, value)}} is filled; `reference`: such a
+    record of the same values WITHOUT the read-first side quantity, which the members must reproduce."""
     pc = _core()
     members = world.members
     hooks = CLASSES[world.cls][2]
+    aux = vals.get("@aux")
+    tag = _side_tag(vals)
+    pre = _pre_reads(vals)
+    side = f" [{aux['name']}" + (f"={aux['value']} {aux['mode']}]" if aux["mode"] != "read-first" else " read first]") if aux else ""
+    # the interpreter knows the class tables only: a hook function of a subclass on a modelled hook, and the read of a
+    # quantity outside the tables, are run on the implementation alone
+    use_model = ctx.model_available and not (aux and (
+        (aux["mode"] == "hook" and aux["name"] in hooks) or (aux["mode"] == "read-first" and aux["name"] not in hooks)))
+    all_orders = list(itertools.permutations(members))
     for k in range(len(members) + 1):
         for sup_names in itertools.combinations(members, k):
             if only is not None and list(sup_names) != only[0]:
@@ -667,62 +805,69 @@ def _scenario(ctx, world, vals, funcs, tables, lines, pending, only=None):
             sup = {m: vals[m] for m in sup_names}
             twin, keep_t = world.build(sup, vals)
             pre_set = [h for h in hooks if twin.has_set(h)]
-            known = set(pre_set) | world.known(twin)
+            known = set(pre_set) | world.known(twin, aux)
             expect = _closure(known, world.rules)
             ext = env = None
-            if ctx.model_available:
+            if use_model:
                 ext, env = _measure_ext(pc, world.cls, tables[world.cls], twin, funcs[world.cls])
                 for h in pre_set:
                     v = twin.__dict__[h]
                     if isinstance(v, (int, float)):
                         env[h] = float(v)
+            if only is not None:
+                orders = [tuple(o) for o in only[1]]
+            elif n_orders is not None and n_orders < len(all_orders):
+                orders = ctx.rng.sample(all_orders, n_orders)
+            else:
+                orders = all_orders
             per_member = {m: [] for m in members}
             first_got = None
-            for order in itertools.permutations(members):
-                if only is not None and list(order) not in only[1]:
-                    continue
-                obj, keep, reads, cache, active = _run_real(world, sup_names, order, vals, funcs[world.cls])
+            for order in orders:
+                obj, keep, reads_all, cache, active = _run_real(world, sup_names, order, vals, funcs[world.cls])
+                reads = reads_all[len(pre):]
                 got = {m: v for (m, k_, v, dt, msg, nc) in reads if k_ == "V"}
                 derived = [m for m in got if m not in sup_names]
-                ctx.case([world.name, list(sup_names), list(order)],
+                ctx.case([world.name, list(sup_names), list(order)] + ([aux["name"], aux["mode"]] if aux else []),
                          nontrivial=bool(derived) and len(sup_names) < len(members))
                 ctx.count("group:" + world.group)
                 ctx.count(f"supplied:{len(sup_names)}/{len(members)}")
+                if aux:
+                    ctx.count("side:" + aux["mode"])
                 rp = _case_replay(world, sup_names, order, vals)
                 for (m, k_, v, dt, msg, nc) in reads:
                     per_member[m].append((order, k_, v))
                     if k_ == "E":
                         ctx.count("fail:" + v)
                         if v != "attr":
-                            ctx.violation(f"{world.group}:wrong-error", f"{world.name}: reading {m} with "
+                            ctx.violation(f"{world.group}:wrong-error{tag}", f"{world.name}{side}: reading {m} with "
                                           f"{sorted(sup_names) or 'nothing'} supplied raises {msg} instead of AttributeError", rp)
                         if dt > SLOW and min(r2[3] for r2 in _run_real(world, sup_names, order, vals, funcs[world.cls])[2]
                                              if r2[0] == m) > SLOW:      # confirmed on a second fresh object (machine load)
-                            ctx.violation(f"{world.group}:slow-failure", f"{world.name}: failing read of {m} took {dt:.2f}s", rp)
+                            ctx.violation(f"{world.group}:slow-failure{tag}", f"{world.name}{side}: failing read of {m} took {dt:.2f}s", rp)
                         if m in expect and v == "attr":
-                            ctx.violation(f"{world.group}:underivable", f"{world.name}: {m} follows from "
+                            ctx.violation(f"{world.group}:underivable{tag}", f"{world.name}{side}: {m} follows from "
                                           f"{sorted(known)} but reading it (order {list(order)}) raises {msg}", rp)
                     else:
                         if m in sup_names and v != vals[m]:
-                            ctx.violation(f"{world.group}:supplied-changed", f"{world.name}: supplied {m}={vals[m]} reads {v}", rp)
+                            ctx.violation(f"{world.group}:supplied-changed{tag}", f"{world.name}{side}: supplied {m}={vals[m]} reads {v}", rp)
                         if m not in expect:
-                            ctx.violation(f"{world.group}:invented", f"{world.name}: {m} reads {v} although only "
+                            ctx.violation(f"{world.group}:invented{tag}", f"{world.name}{side}: {m} reads {v} although only "
                                           f"{sorted(known)} is known", rp)
                 for (rel, lhs, rhs) in world.relations(obj, got):
                     if not _close(lhs, rhs):
-                        ctx.violation(f"{world.group}:inconsistent", f"{world.name}: with "
+                        ctx.violation(f"{world.group}:inconsistent{tag}", f"{world.name}{side}: with "
                                       f"{sorted(sup_names) or 'nothing'} supplied (order {list(order)}): {rel} fails: "
                                       f"{lhs} vs {rhs}", rp)
                 if active:
-                    ctx.violation(f"{world.group}:marks-left", f"{world.name}: re-entrancy marks left on {active}", rp)
+                    ctx.violation(f"{world.group}:marks-left{tag}", f"{world.name}{side}: re-entrancy marks left on {active}", rp)
                 if first_got is None:
-                    first_got = (got, obj, keep)
-                if ctx.model_available:
+                    first_got = (got, obj, keep, order)
+                if use_model:
                     set_names = pre_set
                     lines.append("run %s ext=%s set=%s order=%s env=%s fuel=%d" % (
                         world.cls, ",".join(f"{p}/{s}" for (p, s) in ext) or "-", ",".join(set_names) or "-",
-                        ",".join(order), ",".join(f"{n}={stub.bits(x)}" for n, x in env.items()) or "-", FUEL))
-                    pending.append((rp, reads, cache))
+                        ",".join(pre + list(order)), ",".join(f"{n}={stub.bits(x)}" for n, x in env.items()) or "-", FUEL))
+                    pending.append((rp, reads_all, cache))
             # order independence
             for m in members:
                 obs = per_member[m]
@@ -732,15 +877,30 @@ def _scenario(ctx, world, vals, funcs, tables, lines, pending, only=None):
                 for (o, k_, v) in obs[1:]:
                     same = (k_ == k0) and (v == v0 if k_ == "E" else _close(v, v0))
                     if not same:
-                        ctx.violation(f"{world.group}:order-dependent", f"{world.name}: with {sorted(sup_names) or 'nothing'} "
+                        ctx.violation(f"{world.group}:order-dependent{tag}", f"{world.name}{side}: with {sorted(sup_names) or 'nothing'} "
                                       f"supplied {m} reads {v0 if k0 == 'V' else 'Error(' + v0 + ')'} in order {list(o0)} but "
                                       f"{v if k_ == 'V' else 'Error(' + v + ')'} in order {list(o)}",
                                       dict(_case_replay(world, sup_names, o, vals), reference_order=list(o0)))
                         break
+                if record is not None:
+                    record.setdefault(tuple(sup_names), {})[m] = (o0, k0, v0)
+                # reading another quantity of the object first does not change what a member reads
+                ref = (reference or {}).get(tuple(sup_names), {}).get(m)
+                if ref is not None:
+                    for (o, k_, v) in obs:
+                        if not ((k_ == ref[1]) and (v == ref[2] if k_ == "E" else _close(v, ref[2]))):
+                            ctx.violation(f"{world.group}:order-dependent{tag}", f"{world.name}{side}: with "
+                                          f"{sorted(sup_names) or 'nothing'} supplied {m} reads "
+                                          f"{v if k_ == 'V' else 'Error(' + v + ')'} in order {list(o)}, but "
+                                          f"{ref[2] if ref[1] == 'V' else 'Error(' + ref[2] + ')'} (order {list(ref[0])}) when "
+                                          f"{aux['name']} has not been read before",
+                                          dict(_case_replay(world, sup_names, o, vals), reference_order=list(ref[0]),
+                                               reference_without_side_read=True))
+                            break
             # round trip: a derived value supplied to a fresh object reproduces the original
             if first_got is not None and only is None:
                 got = first_got[0]
-                base_known = set(h for h in pre_set if h not in sup_names) | world.known(twin)
+                base_known = set(h for h in pre_set if h not in sup_names) | world.known(twin, aux)
                 for m in members:
                     if m in sup_names or m not in got:
                         continue
@@ -754,9 +914,12 @@ def _scenario(ctx, world, vals, funcs, tables, lines, pending, only=None):
                             continue
                         r = _read(obj2, s_)
                         if r[0] == "V" and not _close(r[1], vals[s_]):
-                            ctx.violation(f"{world.group}:roundtrip", f"{world.name}: {m}={got[m]} was derived from "
+                            ctx.violation(f"{world.group}:roundtrip{tag}", f"{world.name}{side}: {m}={got[m]} was derived from "
                                           f"{s_}={vals[s_]}; a fresh object given {m} reads {s_}={r[1]}",
-                                          _case_replay(world, [m], [s_], vals2))
+                                          dict(_case_replay(world, sup_names, first_got[3], vals),
+                                               roundtrip={"derived": m, "back": s_},
+                                               how_roundtrip=f"x = obj.{m} after the reads; obj2, keep2 = w.build({{'{m}': x}}, "
+                                                             f"dict(values, {m}=x)); obj2.{s_} must equal values['{s_}']"))
                         ctx.count("roundtrip")
             if len(ctx.samples) < 3 and first_got is not None and sup_names and len(sup_names) < len(members):
                 ctx.sample({"world": world.name, "supplied": sup, "read": first_got[0]})
@@ -830,6 +993,35 @@ def _linked_instances(ctx):
                 break
 
 
+def _side_variants(ctx, world, vals, seed, plain):
+    """the scenarios of one world that carry a side quantity: [(values, orders per subset or None = all, reference)]
+
+    * every float valued quantity of the object that is not a group member (found on the object itself, not listed by
+      hand) x {given explicitly, provided by a subclass hook}: value = its default x a random factor in
+      [1/1.4, 1/1.08] u [1.08, 1.4] (a zero default is left alone), members re-drawn consistently with it;
+    * every such quantity and every other modelled hook of the class read BEFORE the members (values as in the plain run,
+      whose results the members must reproduce)."""
+    out = []
+    cands = _side_candidates(world, vals)
+    few = len(world.members) <= 2
+    for (name, default) in cands:
+        if default == 0.0:
+            continue
+        f = ctx.rng.uniform(1.08, 1.4)
+        value = default * (f if ctx.rng.random() < 0.5 else 1.0 / f)
+        for mode in ("explicit", "hook"):
+            aux = {"name": name, "value": value, "mode": mode}
+            v2 = world.values(random.Random(seed), aux)
+            v2["@aux"] = aux
+            out.append((v2, None if (few or (mode == "explicit" and ctx.tier != "quick")) else 2, None))
+    first = [h for h in CLASSES[world.cls][2] if h not in world.members] + [n for (n, _) in cands]
+    for name in dict.fromkeys(first):
+        v2 = dict(vals)
+        v2["@aux"] = {"name": name, "value": None, "mode": "read-first"}
+        out.append((v2, None if few else 1, plain))
+    return out
+
+
 def run(ctx):
     pc = _core()
     tables = getattr(ctx, "tables", None) or _tables()[1]
@@ -840,15 +1032,22 @@ def run(ctx):
     with _watch_recursion():
         for rep in range(reps):
             for w in worlds:
-                vals = w.values(ctx.rng)
-                _scenario(ctx, w, vals, funcs, tables, lines, pending)
+                seed = ctx.rng.getrandbits(48)       # the same draws for the plain scenario and its side-value variants
+                vals = w.values(random.Random(seed), None)
+                plain = {}
+                _scenario(ctx, w, vals, funcs, tables, lines, pending, record=plain)
+                for (vals2, n_orders, reference) in _side_variants(ctx, w, vals, seed, plain):
+                    _scenario(ctx, w, vals2, funcs, tables, lines, pending, n_orders=n_orders, reference=reference)
         _linked_instances(ctx)
     if ctx.model_available and lines:
         _compare(ctx, lines, pending)
     # the driver reports the first few distinct keys: put one key per kind of failure first
     prio = ["wrong-error", "linked-instances", "slow-failure", "invented", "supplied-changed", "marks-left", "inconsistent",
             "order-dependent", "roundtrip", "underivable"]
-    ctx.violations.sort(key=lambda v: prio.index(v[0].split(":")[-1]) if v[0].split(":")[-1] in prio else 99)
+    def rank(v):
+        kind = v[0].split(":")[-1].split("/")[0]
+        return (prio.index(kind) if kind in prio else 99, v[0])
+    ctx.violations.sort(key=rank)
 
 
 def replay(ctx, data):
@@ -859,9 +1058,30 @@ def replay(ctx, data):
     funcs = _check_registration(ctx, pc, tables)
     lines, pending = [], []
     ctx.model_available = False
-    orders = [r["read_order"]] + ([r["reference_order"]] if "reference_order" in r else [])
+    sup = sorted(r["supplied"], key=w.members.index)
+    vals = r["values"]
     with _watch_recursion():
-        _scenario(ctx, w, r["values"], funcs, tables, lines, pending,
-                  only=(sorted(r["supplied"], key=w.members.index), orders))
+        if r.get("reference_without_side_read"):
+            # the members as they read when the side quantity has not been read before, then with it read first
+            plain = {}
+            _scenario(ctx, w, {k: v for k, v in vals.items() if k != "@aux"}, funcs, tables, lines, pending,
+                      only=(sup, [r["reference_order"]]), record=plain)
+            _scenario(ctx, w, vals, funcs, tables, lines, pending, only=(sup, [r["read_order"]]), reference=plain)
+        else:
+            orders = [r["read_order"]] + ([r["reference_order"]] if "reference_order" in r else [])
+            _scenario(ctx, w, vals, funcs, tables, lines, pending, only=(sup, orders))
+        if "roundtrip" in r:
+            # the value derived on the replayed object, supplied to a fresh one, must give back the original
+            m, s_ = r["roundtrip"]["derived"], r["roundtrip"]["back"]
+            ran = _run_real(w, sup, r["read_order"], vals, funcs[w.cls])       # (kept: the object's surroundings stay alive)
+            x = _read(ran[0], m)
+            if x[0] == "V":
+                vals2 = dict(vals)
+                vals2[m] = x[1]
+                obj2, keep2 = w.build({m: x[1]}, vals2)
+                got = _read(obj2, s_)
+                if got[0] == "V" and not _close(got[1], vals[s_]):
+                    ctx.violation(f"{w.group}:roundtrip{_side_tag(vals)}", f"{w.name}: {m}={x[1]} was derived from "
+                                  f"{s_}={vals[s_]}; a fresh object given {m} reads {s_}={got[1]}", r)
     for (k, what, _) in ctx.violations:
         print(f"replayed: {k}: {what}")
